@@ -28,6 +28,11 @@ def parse_failures(text):
     return out
 
 
+def c17_sexp(text):
+    from props import c17
+    return c17.sexp_parse(text)
+
+
 def expectations(tid, name):
     """(model case, kind of real declaration it must be among, which output column(s))"""
     N = name
@@ -251,12 +256,104 @@ def run(ctx):
         for k in sorted(set(f[0] for f in fl)):
             ctx.report({"oracle": "go-scope", "kind": k, "role": "corpus"}, f"corpus program {r[2]}: emitted Go has {k}",
                        {"program": r[2], "failures": fl[:6]})
+
+    # ------------------------------------------------------------------ (C) instance-name collision hunt
+    from props import c01
+    iprogs, ifeats = c01.collect(ctx, sub="c19inst", extra=["--relied", ",".join(relied)])
+    iprogs = c01.evaluate(ctx, iprogs)
+    igc = c01.gocheck(ctx, [f"{pid}\t{d['stages']['go']}" for pid, d in iprogs.items() if "go" in d["stages"]])
+    irows = vlib.read_tsv(os.path.join(ctx.run_dir, "c19inst.cases.tsv"))
+    inst_meta = {r[0]: r for r in irows if len(r) >= 6 and r[1] == "INST"}
+    n_inst = n_inst_ok = n_inst_names = 0
+    inst_fam = collections.Counter()
+    inst_out = {}
+    inst_clean = set()
+    for pid, d in sorted(iprogs.items()):
+        if not pid.startswith("inst/"):
+            continue
+        meta = inst_meta.get(pid)
+        family, variant = (meta[2], meta[3]) if meta else ("?", "?")
+        n_inst += 1
+        inst_fam[family] += 1
+        payload = {"id": pid, "family": family, "variant": variant, "src": d.get("src")}
+        case = pid.split("/")[2] if pid.count("/") >= 3 else pid
+        sigbase = {"oracle": "instance-names", "family": family, "case": case}
+        # one report per program: the first oracle that fails, in this order
+        def fail(kind, what, extra=None):
+            ctx.report(dict(sigbase, kind=kind), f"{pid}: {what}", dict(payload, **(extra or {})))
+        if "panic" in d:
+            inst_out[pid] = ("panic", d["panic"][:80])
+            fail("compiler-panic", f"the compiler panics: {d['panic'][:140]}", {"outcome": d["panic"][:300]})
+            continue
+        if "reject" in d:
+            inst_out[pid] = ("reject", d["reject"][1][:80])
+            fail("rejected", f"a well-formed program is rejected: {d['reject'][1][:140]}", {"outcome": d["reject"]})
+            continue
+        o = d.get("out", {})
+        ref = o.get("core")
+        if ref is None or ref[0].startswith("stuck"):
+            ref = o.get("mono")
+        go = o.get("go")
+        inst_out[pid] = (go[0], vlib.unesc(go[1])) if go else ("?", "")
+        tables = c17_sexp(meta[4]) if meta else []
+        n_inst_names += sum(len(row[2]) for row in tables)
+        # (a) the names produced for the two distinct (base, type-args) requests are distinct: two per base
+        shared = [(row[0], row[1], row[2]) for row in tables if len(set(row[2])) < 2 or len(set(row[2])) != len(row[2])]
+        if shared:
+            kind, base, names = shared[0]
+            fail(f"{kind}-instances-share-a-name",
+                 f"the two instances of {kind} {base} are registered under {sorted(set(names))} ({len(names)} definitions)", {"instance_table": tables})
+            continue
+        scope = c17_sexp(meta[5]) if meta else []
+        if scope:
+            fail("go-scope:" + scope[0][0], f"emitted Go has {scope[0][0]} on {scope[0][1]}", {"failures": scope[:6], "instance_table": tables})
+            continue
+        # (b) valid Go, and the Go behaves like Core
+        g = igc.get(pid)
+        if g is not None and g[0] == "err":
+            fail("go-check-rejects", f"the emitted Go is not valid: {g[1][:140]}", {"go_check": g[1][:400]})
+            continue
+        if ref is None or go is None or ref[0] in ("decode-error", "parse-error") or go[0] in ("decode-error", "parse-error"):
+            ctx.broken_ties.append(("sem driver", f"{pid}: core/mono={ref} go={go}")); continue
+        if ref[0].startswith("stuck") or ref[0] == "fuel":
+            ctx.broken_ties.append(("Sem cannot run the instance program", f"{pid}: {ref[0]}")); continue
+        if (go[0], go[1]) != (ref[0], ref[1]):
+            fail("go-behaves-unlike-core", f"Go.Sem prints {vlib.unesc(go[1])[:80]!r} ({go[0]}), Sem of Core {vlib.unesc(ref[1])[:80]!r} ({ref[0]})",
+                 {"go": {"status": go[0], "stdout": vlib.unesc(go[1])[:400]}, "core": {"status": ref[0], "stdout": vlib.unesc(ref[1])[:400]}})
+            continue
+        inst_clean.add(pid)
+        n_inst_ok += 1
+        if len(samples) < 7 and variant == "orig" and family in ("tuple-grouping", "generic-application-vs-underscore-name"):
+            samples.append({"instance_case": pid, "instance_table": tables, "stdout": vlib.unesc(go[1])[:160]})
+    # (c) a consistent renaming of the user identifiers does not change the outcome
+    n_ren = n_ren_ok = 0
+    for pid, oc in sorted(inst_out.items()):
+        if not pid.endswith("/renamed"):
+            continue
+        orig = inst_out.get(pid[:-len("/renamed")] + "/orig")
+        if orig is None:
+            continue
+        # a program that already failed an oracle above is reported there
+        if pid not in inst_clean or (pid[:-len("/renamed")] + "/orig") not in inst_clean:
+            continue
+        n_ren += 1
+        if orig == oc:
+            n_ren_ok += 1
+        else:
+            family = inst_meta[pid][2] if pid in inst_meta else "?"
+            ctx.report({"oracle": "instance-rename", "family": family},
+                       f"{pid[:-8]}: renaming the user identifiers changes the outcome: {orig[0]} {orig[1][:60]!r} -> {oc[0]} {oc[1][:60]!r}",
+                       {"id": pid, "original": {"status": orig[0], "stdout": orig[1][:300]}, "renamed": {"status": oc[0], "stdout": oc[1][:300]},
+                        "src": iprogs[pid[:-len('/renamed')] + '/orig'].get("src"), "src_renamed": iprogs[pid].get("src")})
     n_corpus_ok = sum(1 for r in corpus if r[3] == "ok")
     ctx.violations.sort(key=lambda v: len(v[2].get("src", "")))
 
     cov = {
-        "evaluations": len(cases) + len(rows) + len(corpus),
-        "distinct_nontrivial": len(distinct) + n_prog_ok,
+        "evaluations": len(cases) + len(rows) + len(corpus) + n_inst,
+        "distinct_nontrivial": len(distinct) + n_prog_ok + n_inst_ok,
+        "instance_collision_hunt": {"programs": n_inst, "by_family": dict(inst_fam), "programs_all_oracles_clean": n_inst_ok,
+                                    "instance_names_read_from_real_mono_tables": n_inst_names,
+                                    "renamed_variants": n_ren, "renamed_variants_same_outcome": n_ren_ok, "generator": ifeats},
         "rule": "encoder cases: distinct inputs, non-trivial = identifier that takes the escaping branch or any type (all seven type "
                 "encoders are compared per type); programs: accepted by the real pipeline (one template × one adversarial name each)",
         "input_distribution": stats,
